@@ -114,6 +114,27 @@ fn same_type_closure(t: T24) -> impl Fn() -> u64 + Send + Sync + 'static {
     }
 }
 
+/// A closure of a *different* Rust type with the same signature (its captured state has another
+/// layout: the tracked value sits behind two words).
+fn other_type_closure(t: T24) -> impl Fn() -> u64 + Send + Sync + 'static {
+    let pad = (0x1111_1111_1111_1111u64, 0x2222_2222_2222_2222u64);
+    move || {
+        let c: &T24 = &t;
+        let p = match c.checked_payload() {
+            Ok(p) => p,
+            Err(e) => {
+                viol::record("stale-read", format!("state captured by a registered closure is not alive: {e}"));
+                0
+            }
+        };
+        if pad.0 != 0x1111_1111_1111_1111 || pad.1 != 0x2222_2222_2222_2222 {
+            viol::record("wrong-result", format!("a registered closure was entered with another closure's state: padding reads {:#x} {:#x}", pad.0, pad.1));
+        }
+        host("cap", p);
+        p
+    }
+}
+
 fn mk_runtime(rid: u64) -> Runtime<NoCtx> {
     let mut rt = mk_runtime_base(rid);
     for (name, payload) in [("cap2", 600 + rid), ("cap3", 700 + rid)] {
@@ -850,7 +871,13 @@ fn exec_inner(op: &LifeOp) -> bool {
                 back_rt(*r, e);
                 return false;
             }
-            let res = roto::Function::new(name.as_str(), "closure added after construction", vec![], same_type_closure(T24::new(payload)), roto::location!()).and_then(|f| e.rt.0.add(f));
+            // closures of two different Rust types (two trampolines) under the two names
+            let res = if aid % 3 == 0 {
+                roto::Function::new(name.as_str(), "closure added after construction", vec![], other_type_closure(T24::new(payload)), roto::location!())
+            } else {
+                roto::Function::new(name.as_str(), "closure added after construction", vec![], same_type_closure(T24::new(payload)), roto::location!())
+            }
+            .and_then(|f| e.rt.0.add(f));
             match res {
                 Ok(()) => {
                     e.extras.push(payload);
